@@ -443,6 +443,9 @@ class ExecBase:
         raise Unsupported(f"unary {type(n.op).__name__}")
 
     def e_IfExp(s, n, p):
+        st = source.static_test(n.test, s.cfg)      # interpreter-version tests are decided by the configuration
+        if st is not None:
+            return s.ev(n.body if st else n.orelse, p)
         res = []
         for st, p1, c in s.ev(n.test, p):
             if st != "ok":
@@ -454,6 +457,36 @@ class ExecBase:
             if f is not None:
                 res += s.ev(n.orelse, f)
         return res
+
+    def _pure_ifexp(s, n, p):
+        """`a if c else b` as ONE value If(c, a, b) when the test and both arms are single-outcome and write nothing (used for
+        comprehension elements, which may not fork): facts learned in an arm are kept under that arm's condition.
+        Returns ("ok", path, SV) or None when the expression does not qualify."""
+        if source.static_test(n.test, s.cfg) is not None:
+            return None
+        rt = s.ev(n.test, p.clone())
+        if len(rt) != 1 or rt[0][0] != "ok":
+            return None
+        q = rt[0][1]
+        c = z3.simplify(s.truthy(q, rt[0][2]))
+        arms = []
+        for node, cnd in ((n.body, c), (n.orelse, Not(c))):
+            a = q.clone()
+            a.pc.append(cnd)
+            ra = s.ev(node, a)
+            if len(ra) != 1 or ra[0][0] != "ok":
+                return None
+            a2 = ra[0][1]
+            same_heap = all(getattr(a2.h, comp).eq(getattr(q.h, comp)) for comp in ("lo", "hi", "el", "dk", "dv", "dn")) and \
+                a2.h.alloc.eq(q.h.alloc) and all(a2.h.fields[f].eq(q.h.field(f)) for f in a2.h.fields)
+            if not same_heap:
+                return None
+            arms.append((cnd, ra[0][2], a2.pc[len(q.pc) + 1:]))
+        for cnd, _, facts in arms:
+            q.pc += [Implies(cnd, f) for f in facts]
+        (_, va, _), (_, vb, _) = arms
+        st = {"ty": va.get("ty")} if va.get("ty") is not None and va.get("ty") == vb.get("ty") else {}
+        return ("ok", q, SV(If(c, va.t, vb.t), **st))
 
     def e_NamedExpr(s, n, p):
         def k(p1, vs):
@@ -727,7 +760,8 @@ class ExecBase:
                         r = only_ok(ex.ev(t, tmp), "test")
                         tmp = r[1]
                         cond.append(ex.truthy(tmp, r[2]))
-                    rs = [only_ok(ex.ev(elt, tmp), "element")]
+                    merged_if = ex._pure_ifexp(elt, tmp) if isinstance(elt, ast.IfExp) else None
+                    rs = [merged_if] if merged_if is not None else [only_ok(ex.ev(elt, tmp), "element")]
                     last_tmp[0] = rs[0][1]
                     return And(cond) if cond else BoolVal(True), rs[0][2].t, rs[0][1].pc[len(base.pc) + 1:]
                 raised = []
@@ -779,7 +813,7 @@ class ExecBase:
                         return And([Implies(And(j >= 0, j < nn), Select(arr, j) == v)] +
                                    [Implies(And(j >= 0, j < nn), f) for f in facts])
                     pb.add_schema(new, sch)
-                    return outs + [("ok", pb, SV(new, ty=kname, comp_of=seqv))]
+                    return outs + [("ok", pb, SV(new, ty=kname, comp_of=seqv, aligned=True))]
                 src = z3.Function(fresh_name("comp_src"), z3.IntSort(), z3.IntSort())
                 pos = z3.Function(fresh_name("comp_pos"), z3.IntSort(), z3.IntSort())
                 def sch(pth, j):
@@ -808,14 +842,79 @@ class ExecBase:
         return s.seq([gen.iter], p, k)
 
     def e_DictComp(s, n, p):
-        """{k: v for ...}: an opaque fresh dict (contents not modelled); the iterable is evaluated for its effects"""
+        """{k: v for x in seq} without `if` clauses: a fresh dict D described through the two sequences K = [k for x in seq] and
+        V = [v for x in seq] (built by the list-comprehension machinery from the SAME generator): a key is present iff it is
+        some K[j]; the value stored under a present key is V[w] for an index w with K[w] == key (with distinct keys: THE
+        index; with repeated keys Python keeps the last one - here it is only known to be one of them, a weaker fact).
+        With `if` clauses, or several generators: an opaque fresh dict (contents not modelled)."""
         if len(n.generators) != 1:
             raise Unsupported("dict comprehension shape")
-        def k(p1, vs):
-            d = p1.new_dict()
-            p1.havoc_dict(d)
-            return [("ok", p1, SV(d, ty="dict", dictcomp=True))]
-        return s.seq([n.generators[0].iter], p, k)
+        gen = n.generators[0]
+        if gen.ifs or gen.is_async:
+            def k0(p1, vs):
+                d = p1.new_dict()
+                p1.havoc_dict(d)
+                return [("ok", p1, SV(d, ty="dict", dictcomp=True))]
+            return s.seq([gen.iter], p, k0)
+        def k(p0, vs):
+            keep = p0.clone()
+            try:
+                return modelled(p0, vs)
+            except Unsupported:
+                # target shapes / elements the list-comprehension machinery cannot describe: the old opaque dict
+                d = keep.new_dict()
+                keep.havoc_dict(d)
+                return [("ok", keep, SV(d, ty="dict", dictcomp=True))]
+
+        def modelled(p0, vs):
+            tmpname = f"$dictcomp_src_{n.lineno}_{n.col_offset}"
+            p0.env[tmpname] = vs[0]                      # the iterable is evaluated ONCE; both helper comprehensions range over it
+            g2 = [ast.comprehension(target=gen.target, iter=ast.copy_location(ast.Name(id=tmpname, ctx=ast.Load()), gen.iter), ifs=[], is_async=0)]
+            kcomp = ast.copy_location(ast.ListComp(elt=n.key, generators=g2), n)
+            vcomp = ast.copy_location(ast.ListComp(elt=n.value, generators=g2), n)
+            res = []
+            for st1, p1, K in s._comprehension(kcomp, p0, n.key, "list", False):
+                if st1 != "ok":
+                    res.append((st1, p1, K))
+                    continue
+                for st2, p2, V in s._comprehension(vcomp, p1, n.value, "list", False):
+                    if st2 != "ok":
+                        res.append((st2, p2, V))
+                        continue
+                    res.append(s._dict_from_kv(p2, K, V))
+            return res
+        return s.seq([gen.iter], p, k)
+
+    def _dict_from_kv(s, p2, K, V):
+        H = p2.snap()
+        Kt, Vt = K.t, V.t
+        nn = H.length(Kt)
+        d = p2.new_dict()
+        p2.havoc_dict(d)
+        wit = z3.Function(fresh_name("dictcomp_wit"), Val, z3.IntSort())
+        dk, dv = p2.h.dk, p2.h.dv                        # the dict as it is right after the comprehension
+        def per_key(pth, key):
+            w = wit(key)
+            return Implies(Select(Select(dk, Val.a(d)), key),
+                           And(w >= 0, w < nn, pth.read(Kt, H.lo_(Kt) + w, H) == key,
+                               Select(Select(dv, Val.a(d)), key) == pth.read(Vt, H.lo_(Vt) + w, H)))
+        p2.add_dschema(d, per_key)
+        def present(pth, j):
+            return Implies(And(j >= H.lo_(Kt), j < H.hi_(Kt)), Select(Select(dk, Val.a(d)), H.raw(Kt, j)))
+        p2.add_schema(Kt, present)
+        srcv = K.get("comp_of")
+        if K.get("aligned") and srcv is not None and srcv.get("special") is None and srcv.get("ty") in ("list", "tuple", "deque"):
+            # whoever reads source item j also learns that its key is present
+            def via_source(pth, ja, st=srcv.t):
+                pth.read(Kt, z3.simplify(H.lo_(Kt) + (ja - H.lo_(st))), H)
+                return BoolVal(True)
+            p2.add_schema(srcv.t, via_source)
+        cn = z3.simplify(nn)
+        if z3.is_int_value(cn) and cn.as_long() <= 16:
+            for j_ in range(cn.as_long()):              # concrete source: every key is present, eagerly
+                p2.read(Kt, z3.simplify(H.lo_(Kt) + j_), H)
+        p2.pc.append(And(p2.h.dlen(d) >= 0, p2.h.dlen(d) <= nn))
+        return ("ok", p2, SV(d, ty="dict", dictcomp=True, keys_seq=K, values_seq=V))
 
     def e_ListComp(s, n, p):
         return s._comprehension(n, p, n.elt, "list", False)
